@@ -651,6 +651,11 @@ def validate_state(state):
     tables = set()
     for a in sorted(state['apps']):
         for m in state['apps'][a]['models']:
+            for prop_ in ('unique_together', 'index_together'):
+                tl_ = [list(t_) for t_ in (m.get('meta') or {}).get(prop_)
+                       or []]
+                if any(tl_.count(t_) > 1 for t_ in tl_):
+                    raise SpecError('duplicate %s entry' % prop_)
             t = table_name(a, m)
             if t in tables:
                 raise SpecError('duplicate table %s' % t)
